@@ -24,7 +24,7 @@ DUMPER_KINDS = ['yaml_representers', 'yaml_multi_representers', 'yaml_implicit_r
 ALL_KINDS = ['yaml_constructors', 'yaml_multi_constructors', 'yaml_representers', 'yaml_multi_representers',
              'yaml_implicit_resolvers', 'yaml_path_resolvers']
 
-ENCODED = ['BaseConstructor.add_constructor / add_multi_constructor', 'BaseRepresenter.add_representer / add_multi_representer',
+ENCODED = ['BaseConstructor.construct_object, BaseRepresenter.represent_data, BaseResolver.resolve (dispatch against the tables: behaviour cells)', 'BaseConstructor.add_constructor / add_multi_constructor', 'BaseRepresenter.add_representer / add_multi_representer',
            'BaseResolver.add_implicit_resolver / add_path_resolver', 'yaml.add_constructor / add_multi_constructor / add_representer / '
            'add_multi_representer / add_implicit_resolver / add_path_resolver (module level, Loader=None fan-out)',
            'YAMLObjectMetaclass.__init__']
@@ -318,6 +318,160 @@ def step(root_i: int, side: int, kind_i: int, ownA: bool, ownB: bool, ownC: bool
         _restore(snap)
 
 
+# ------------------------------------------------------------------ behaviour follows the tables
+RXB = re.compile(r'^(?:[pq]?z)?$')
+
+
+class SubPre(Kpre):
+    pass
+
+
+class Sub0(K0):
+    pass
+
+
+def _predict_ctor(C, M, tag):
+    if tag in C:
+        return C[tag]
+    for p in M:
+        if p is not None and tag.startswith(p):
+            return M[p]
+    if None in M:
+        return M[None]
+    if None in C:
+        return C[None]
+    return None
+
+
+def _predict_repr(R, MR, obj):
+    t = type(obj)
+    if t in R:
+        return R[t]
+    for b in t.__mro__:
+        if b in MR:
+            return MR[b]
+    if None in MR:
+        return MR[None]
+    if None in R:
+        return R[None]
+    return None
+
+
+def _predict_res(I, value):
+    for tag, rx in I.get(value[0] if value else '', []) + I.get(None, []):
+        if rx.match(value):
+            return tag
+    return 'tag:yaml.org,2002:str'
+
+
+class _NullOut:
+    def write(self, data):
+        pass
+
+
+def _dispatch_mismatch(kind, c, is_loader, key):
+    """run the dispatch of class c on a few probes and compare with what its effective tables say;
+    -> None or a description.  All data is concrete: runs outside the tracer."""
+    with untraced():
+        if kind in ('yaml_constructors', 'yaml_multi_constructors'):
+            C, M = c.yaml_constructors, c.yaml_multi_constructors
+            for tag in (key, key + '~', '!pre', '!pre~', '!new'):
+                want = _predict_ctor(C, M, tag)
+                inst = c('')
+                try:
+                    got = inst.construct_object(ScalarNode(tag, '7'))
+                except Exception:
+                    got = 'exc'
+                finally:
+                    inst.dispose()
+                for f, r in ((f1, 1), (f2, 2)):
+                    if (want is f) != (got == r and type(got) is int):
+                        return 'constructing %r: the tables say %s, the call gave %r' % (tag, getattr(want, '__name__', want), got)
+        elif kind in ('yaml_representers', 'yaml_multi_representers'):
+            R, MR = c.yaml_representers, c.yaml_multi_representers
+            for obj in (Kpre(), K0(), SubPre(), Sub0()):
+                want = _predict_repr(R, MR, obj)
+                inst = c(_NullOut())
+                try:
+                    got = inst.represent_data(obj)
+                except Exception:
+                    got = 'exc'
+                finally:
+                    inst.dispose()
+                for f, r in ((f1, 1), (f2, 2)):
+                    if (want is f) != (got == r and type(got) is int):
+                        return 'representing a %s: the tables say %s, the call gave %r' % (type(obj).__name__, getattr(want, '__name__', want), got)
+        else:
+            I = c.yaml_implicit_resolvers
+            inst = c('') if is_loader else c(_NullOut())
+            try:
+                for value in ('pz', 'qz', 'z', '', 'x', 'px'):
+                    want = _predict_res(I, value)
+                    got = inst.resolve(ScalarNode, value, (True, False))
+                    if got != want:
+                        return 'resolving %r: the table says %s, the call gave %s' % (value, want, got)
+            finally:
+                inst.dispose()
+    return None
+
+
+def behaviour(root_i: int, side: int, kind_i: int, ownA: bool, ownB: bool, ownC: bool, tgt: int, tag_i: int, nfirst: int, c1_i: int,
+              used: bool, again: bool) -> str:
+    """dispatch (construct_object / represent_data / resolve) of every lattice class agrees with its
+    effective tables after the operation - also when the classes have dispatched before it (used)
+    and when the target registers a second time (again): memoised look-ups must not outlive a
+    registration"""
+    is_loader = side == 0
+    tag = pick(tag_i, TAGS)
+    c1 = pick(c1_i, CHARS)
+    root = pick(root_i, LOADER_ROOTS) if is_loader else pick(root_i, DUMPER_ROOTS)
+    kind = pick(kind_i, (LOADER_KINDS if is_loader else DUMPER_KINDS)[:3])
+    snap = _snapshot(SHIPPED)
+    try:
+        classes = build(root)
+        if ownA:
+            pre_register(kind, classes[1], is_loader)
+        if ownB:
+            pre_register(kind, classes[2], is_loader)
+        if ownC:
+            pre_register(kind, classes[3], is_loader)
+        if used:
+            for c in classes:
+                m = _dispatch_mismatch(kind, c, is_loader, tag)
+                if m:
+                    return 'BEHAVIOUR of %s before the operation: %s' % (c.__name__, m)
+        T = pick(tgt, classes)
+        for rnd in range(2):
+            if rnd == 1 and not again:
+                break
+            fn = f2 if rnd == 0 else f1
+            if kind == 'yaml_constructors':
+                T.add_constructor(tag, fn)
+            elif kind == 'yaml_multi_constructors':
+                T.add_multi_constructor(tag, fn)
+            elif kind == 'yaml_representers':
+                T.add_representer(Kpre if nfirst == 0 else K0, fn)
+            elif kind == 'yaml_multi_representers':
+                T.add_multi_representer(Kpre if nfirst == 0 else K0, fn)
+            else:
+                T.add_implicit_resolver(tag if rnd == 0 else '!again', RXB, None if nfirst == 0 else [c1] if nfirst == 1 else [c1, 'q'])
+            reach()
+            for c in classes:
+                m = _dispatch_mismatch(kind, c, is_loader, tag)
+                if m:
+                    return 'BEHAVIOUR of %s after the %s registration on %s: %s' % (c.__name__, 'first' if rnd == 0 else 'second', T.__name__, m)
+        ch = _changed(snap)
+        if ch:
+            return 'LEAK into shipped ' + ch
+        return 'ok'
+    except Exception as e:
+        not_a_finding(e)
+        return fail(P, exc_sig(e))
+    finally:
+        _restore(snap)
+
+
+
 def subclass_and_yamlobject(root_i: int, ownA: bool, tgt: int, tag_i: int, as_list: bool, dtgt: int) -> str:
     """Defining a subclass changes nothing; a YAMLObject subclass registers its constructor on
     yaml_loader (class or list) and its representer on yaml_dumper, and nowhere else."""
@@ -517,6 +671,13 @@ def jobs(tier):
                                    0 <= c1_i <= (NC if (_k == 3 or (_k == 2 and nfirst >= 1)) else 0) and
                                    0 <= c2_i <= (NC if (_k == 2 and nfirst == 2) else 0)],
                                   budget=150, bounds='root %s, table %s, 3 ownership bits + sibling-kind ownership by one of 4 classes, 4 targets, keys {present, fresh, core, empty}, first-character lists of 0..2 chars' % (r.__name__, kinds[ki])))
+    for side, roots in ((0, LOADER_ROOTS), (1, DUMPER_ROOTS)):
+        for ri, r in enumerate(roots):
+            js.append(Job('behaviour/%s' % r.__name__, behaviour,
+                          [lambda root_i, side, kind_i, ownA, ownB, ownC, tgt, tag_i, nfirst, c1_i, used, again, _s=side, _r=ri:
+                           root_i == _r and side == _s and 0 <= kind_i <= 2 and 0 <= tgt <= 3 and 0 <= tag_i <= (1 if q else 3) and 0 <= nfirst <= (2 if kind_i == 2 else 1) and
+                           0 <= c1_i <= (2 if kind_i == 2 and nfirst >= 1 else 0) and (not ownC if q else True)],
+                          budget=200, bounds='root %s: dispatch of every lattice class against its effective tables, before (optionally) and after one or two registrations of 3 kinds on any of 4 classes' % r.__name__))
     for ri, r in enumerate(LOADER_ROOTS):
         js.append(Job('yamlobject/%s' % r.__name__, subclass_and_yamlobject,
                       [lambda root_i, ownA, tgt, tag_i, as_list, dtgt, _r=ri: root_i == _r and 0 <= tgt <= 3 and 0 <= dtgt <= 3 and 0 <= tag_i <= 3],
